@@ -48,10 +48,16 @@ def check(ctx):
         rp = dict(how='twice', cfg=c)
         # the preceding workload: the same kind of task (same shapes, so freed memory is re-used) with another
         # seed, objective and box, followed by unrelated optimisers
-        same_shape = dict(c, seed=c['seed'] + 17, objective='positive', hyper={})
+        import random as _random
+        same_shape = dict(c, seed=c['seed'] + 17, objective='positive', hyper={}, n_iter=max(c['n_iter'], 6))
+        # … and once more with other hyperparameters (module-level caches keyed by a hyperparameter show here)
+        other_hp = dict(same_shape, seed=c['seed'] + 23,
+                        hyper=runlevel.hyper_sample(_random.Random(c['seed']), c['kind'], c['n_agents'], 'ends'))
+        if c['kind'] in ('CS', 'FPA'):
+            other_hp['hyper'] = dict(other_hp['hyper'], beta=1.9)
         if c['space'] != 'hyper':
             same_shape.update(lb=[-7.25] * c['n_vars'], ub=[9.5] * c['n_vars'], box='wide')
-        wl = [same_shape] + workloads[:2]
+        wl = [other_hp, same_shape] + workloads[:2]
         if n < n_cross or c['objective'] == 'barrier':
             a = child(c, [], 1)
             b = child(c, wl, 2)
